@@ -380,7 +380,7 @@ func monC04(c *child.Ctx, replay json.RawMessage) {
 	}
 	validateEncoder(c)
 	r := ref.NewRand(c.Seed*217645199 + uint64(c.Batch)*236887691 + 4)
-	n := c.Share(c.Pick(6000, 300000))
+	n := c.Share(c.Pick(40000, 600000))
 	npads := c.Pick(4, 8)
 	for i := 0; i < n; i++ {
 		m := gen.RandMSM(r, gen.MSMOpts{Type: ref.MSMTypes[i%len(ref.MSMTypes)], AllowNoCell: true})
